@@ -1,6 +1,7 @@
 package splunk
 
 import (
+	"errors"
 	"time"
 
 	"github.com/ozontech/file.d/pipeline"
@@ -78,4 +79,53 @@ func VerifH_C19_splunkEnvelopes() {
 	if deliverable >= 2 {
 		vf.Reach("several-envelopes")
 	}
+}
+
+var (
+	verifRespCode int
+	verifRespBody string
+)
+
+// replaces (*xhttp.Client).DoTimeout as the real one behaves: a transport failure, a status outside 200..202
+// (error, the body is not looked at) or an accepted status whose body goes to the response callback
+func verifStubDoResp(c *xhttp.Client, method, contentType string, body []byte, timeout time.Duration, process func([]byte) error) (int, error) {
+	verifBodies = append(verifBodies, append([]byte(nil), body...))
+	if verifRespCode == 0 {
+		return 0, errVerifResp
+	}
+	if verifRespCode < 200 || verifRespCode > 202 {
+		return verifRespCode, errVerifResp
+	}
+	if process != nil {
+		return verifRespCode, process([]byte(verifRespBody))
+	}
+	return verifRespCode, nil
+}
+
+var errVerifResp = errors.New("verif: bad response")
+
+// C09 (sink side): the splunk output reports a batch as sent only when splunk answered 200..202 with
+// {"code":0,...}, or when the request itself was malformed (400: documented as not retried); any other
+// status, a non-zero splunk code, a body without code or a body that is not JSON is a failure for the retry logic.
+func VerifH_C09_splunkAnswers() {
+	codes := []int{200, 0, 400, 401, 403, 404, 429, 500, 503}
+	verifRespCode = codes[vf.Choose("status", len(codes))]
+	bodies := []string{`{"text":"Success","code":0}`, `{"text":"Invalid token","code":4}`, `{"text":"Server is busy","code":9}`, `{"text":"no code"}`, `not json`, ``, `{"code":"0"}`}
+	bk := vf.Choose("body", len(bodies))
+	verifRespBody = bodies[bk]
+	p := &Plugin{config: &Config{BatchSize_: 4}, avgEventSize: 32, client: &xhttp.Client{}}
+	root := insaneJSON.Spawn()
+	_ = root.DecodeString(`{"k":"v"}`)
+	verifBodies = nil
+	var wd pipeline.WorkerData
+	err := p.out(&wd, pipeline.NewPreparedBatch([]*pipeline.Event{{Root: root, Size: 9}}))
+	accepted := verifRespCode == 200 && (bk == 0 || bk == 6)
+	done := accepted || verifRespCode == 400
+	if vf.Param("twin", 0) == 1 {
+		vf.Assert((err == nil) != done, "batch-reported-sent-only-when-splunk-took-it")
+		return
+	}
+	vf.Assert((err == nil) == done, "batch-reported-sent-only-when-splunk-took-it")
+	vf.Assert(len(verifBodies) == 1, "one-request-per-attempt")
+	vf.Reach("answer-checked")
 }
